@@ -14,6 +14,14 @@
   a public key without P, ternary Xe outside the NTT domain); the corresponding probes stay in the harness
   (`dec_enc_noise_upper` with keys `C03-sk-degree-ge2`, `C03-degree-ge2-stale`, `C03-montgomery-flag`,
   `C03-ternaryH-readandadd`; `encrypt_total`; `decrypt_degree7`; `pt_value_level`; `declared_std`).
+  The abstract `ext` of the theorems is `RQ.extSmall` in the driver: it reads the value off limb 0 and, since fix
+  C03-9, reduces its magnitude modulo each `p_i` (before, `p_i − |c|` wrapped modulo 2^64 for `|c| > p_i`).  With an
+  error or secret bound ≥ `q_0/2` limb 0 does not determine the value and the P limbs of keys and pk-encryptions
+  are inconsistent with the Q limbs (probe `error_limbs_consistent`, key `C03-error-limbs-inconsistent`): such
+  literals are rejected when P is present (fix C03-10, probe `unextendable_bound_rejected`).  `Props/C03Stack.ext_coeff`
+  proves the per-coefficient statement.  The hypothesis `π (ext x) = x`-style facts are not needed:
+  `dec_enc_pk_P` holds for every `ext`; what `ext` must satisfy for the NORM bound is that `ext e` is the same small
+  integer polynomial over Q·p₀, which is what that probe checks on the real code.
   Still open: `ShallowCopy` of a `WithPRNG` encryptor draws `c1` from a fresh system PRNG (probe
   `shallowcopy_keeps_prng`, key `C03-shallowcopy-drops-prng`); the ciphertext is valid (the theorems below do not
   care where `a` comes from) but a seed holder cannot expand a degree-0 ciphertext made by the copy.
